@@ -346,6 +346,8 @@ pub fn run(args: &Args) -> i32 {
     e.mandatory_first = Some(Op::Read(0, RC::Exact));
     e
   };
+  // `pe`: require-only programs with pie's EqualsChecker and the harness equality checker, no guards, no writes
+  let pe = |n: usize, r: u8, k: usize| { let mut e = EnumCfg::structural(n, r, k); e.ocs = vec![OC::PieEquals, OC::Equals]; e.srcs = vec![]; e.guards = false; e.self_req = false; e };
   // `cw`: generator/consumer programs with coarse (existence-only) write checkers as well.
   let cw = |n: usize, r: u8, k: usize| { let mut e = EnumCfg::structural(n, r, k); e.ocs = vec![OC::Equals, OC::PieAlways]; e.write_rcs = vec![RC::Exact, RC::Exists]; e };
   let mut groups: Vec<Group> = if quick {
@@ -382,6 +384,9 @@ pub fn run(args: &Args) -> i32 {
       groups.push(Group { enums: vec![cw(2, 2, 4)], depth: 4, shapes: false, gen_consumer_only: true, crashes: 0, inject: false, max_roots: None, faulty: false, slice: None, families: false, staged: None, direct: false });
       if !quick { groups.push(Group { enums: vec![nw(4, 1, 5)], depth: 4, shapes: false, gen_consumer_only: false, crashes: 0, inject: false, max_roots: None, faulty: false, slice: None, families: false, staged: None, direct: false }); }
       groups.push(Group { enums: vec![if quick { sf(4, 2) } else { sf(4, 3) }], depth: 4, shapes: false, gen_consumer_only: false, crashes: 0, inject: false, max_roots: Some(2), faulty: false, slice: None, families: false, staged: None, direct: false });
+      // several requirers of one task with pie's own EqualsChecker next to the harness one, stamps taken in different
+      // sessions (each requirer holds a stamp of a different output of the shared task)
+      groups.push(Group { enums: vec![pe(3, 1, 3)], depth: 5, shapes: false, gen_consumer_only: false, crashes: 0, inject: false, max_roots: Some(1), faulty: false, slice: None, families: false, staged: None, direct: false });
       // order family: creation orders / topological ranks set up by a first stage of top-down builds
       groups.push(Group { enums: vec![], depth: if quick { 2 } else { 3 }, shapes: false, gen_consumer_only: false, crashes: 0, inject: false, max_roots: Some(1), faulty: false, slice: None, families: false, staged: Some(if quick { 4 } else { 5 }), direct: false });
       if !quick { groups[0].depth = 5; groups[1].depth = 4; groups[2].depth = 3; }
@@ -418,6 +423,7 @@ pub fn run(args: &Args) -> i32 {
     }
     Prop::C09 => {
       cfg.bu_pre = true; cfg.bu_twice = true; cfg.bu_split = true; cfg.bu_then = true;
+      groups.push(Group { enums: vec![pe(3, 1, 3)], depth: 5, shapes: false, gen_consumer_only: false, crashes: 0, inject: false, max_roots: Some(1), faulty: false, slice: None, families: false, staged: None, direct: false });
       let mut e = EnumCfg::structural(2, 2, if quick { 2 } else { 3 });
       e.ocs = vec![OC::Equals, OC::IsZero, OC::Always, OC::PieEquals];
       e.read_rcs = vec![RC::Exact, RC::Exists, RC::Always];
